@@ -4,7 +4,7 @@ use crate::{
     model::{TryFromNode, field::resolve_type},
     reader::WriteXml,
 };
-use inflector::cases::snakecase::to_snake_case;
+use inflector::cases::{pascalcase::to_pascal_case, snakecase::to_snake_case};
 use reqwest::Url;
 use std::{io, rc::Rc};
 
@@ -98,6 +98,8 @@ where
 {
     // generate an async fn for the operation
     let rust_fn_name = to_snake_case(operation_name);
+    // the envelope types are named by the binding writer in PascalCase
+    let operation_name = to_pascal_case(operation_name);
     let request_name = format!("{operation_name}InputEnvelope");
     let response_name = operation
         .output
